@@ -29,7 +29,8 @@ func TestC16ZipTarget(t *testing.T) {
 		var buf bytes.Buffer
 		zw := stdzip.NewWriter(&buf)
 		for i := 0; i < n; i++ {
-			w, err := zw.CreateHeader(&stdzip.FileHeader{Name: fmt.Sprintf("file-%d", i), Method: stdzip.Deflate})
+			// (entries may lie in folders: the archive is the build, folders and all)
+			w, err := zw.CreateHeader(&stdzip.FileHeader{Name: rapid.SampledFrom([]string{"", "", "sub/", "sub/deep/"}).Draw(rt, "folder") + fmt.Sprintf("file-%d", i), Method: stdzip.Deflate})
 			Must(err, "zip header")
 			_, err = w.Write(LowEntropy(uint64(i)+rapid.Uint64().Draw(rt, "seed"), rapid.IntRange(1, 200*KiB).Draw(rt, "size"), 3))
 			Must(err, "zip write")
